@@ -103,14 +103,14 @@ def detect(sid, tier, which):
     return out
 
 
-def ingest(pid, k, src_root='/tmp/wt-out'):
+def ingest(pid, k, src_root='/tmp/wt-out', tag=''):
     """Confirm the candidate src_root/<pid>/<k> and, if confirmed, keep it as seeded/<pid>-<k>/."""
     cand = os.path.join(src_root, pid, str(k))
     ok, res = confirm(cand)
     print(json.dumps({'candidate': cand, 'confirmed': ok, 'details': res}, indent=1))
     if not ok:
         return False
-    dst = os.path.join(VERIF, 'seeded', '%s-%s' % (pid, k))
+    dst = os.path.join(VERIF, 'seeded', '%s-%s%s' % (pid, tag, k))
     os.makedirs(dst, exist_ok=True)
     for f in ('patch.diff', 'demo.py', 'notes.md'):
         if os.path.exists(os.path.join(cand, f)):
@@ -140,7 +140,29 @@ def main():
     if len(sys.argv) < 3:
         raise SystemExit(__doc__)
     if sys.argv[1] == 'ingest':
-        sys.exit(0 if ingest(sys.argv[2], sys.argv[3]) else 1)
+        sys.exit(0 if ingest(*sys.argv[2:]) else 1)
+    if sys.argv[1] == 'refactor':
+        # a behaviour-preserving change: every check must stay silent
+        patch = sys.argv[2]
+        tier = sys.argv[3] if len(sys.argv) > 3 else 'quick'
+        bad = {}
+        with Worktree() as wt:
+            a = sh(['git', 'apply', patch], cwd=wt)
+            if a.returncode:
+                raise SystemExit('patch does not apply: ' + a.stderr)
+            counts, failed = suite(wt)
+            print('suite with patch:', counts)
+            for c in manifest_checks():
+                r = sh([os.path.join(VERIF, 'check'), c, '--tier', tier], cwd=VERIF,
+                       env=dict(os.environ, VERIF_REPO=wt, VERIF_EVIDENCE_DIR=os.path.join(wt, '.verif-evidence'),
+                                VERIF_REPLAY_DIR=os.path.join(wt, '.verif-replays')))
+                if r.returncode != 0:
+                    bad[c] = r.stdout[-1500:]
+        print(patch, 'ALARMS:' if bad else 'silent', sorted(bad))
+        for c, o in bad.items():
+            print('-----', c)
+            print(o)
+        sys.exit(1 if bad else 0)
     if sys.argv[1] == 'confirm':
         ok, res = confirm(sys.argv[2])
         print(json.dumps({'confirmed': ok, 'details': res}, indent=1))
